@@ -159,8 +159,16 @@ def r6(ck, rule="C01-R6"):
     if not ck.require(len(sws) == 1 and {"Add", "Remove", "Context"} <= set(sws[0]["edges"]), rule, "parse_hunk dispatches on the line marker",
                       "%d matches on HunkLineType" % len(sws), ph.where()):
         return
-    sw = sws[0]
-    arm = {v: cfg.dominated_by_edge(ph, sw["edges"][v]) for v in ("Add", "Remove", "Context")}
+    # What runs for a line of each kind: reachability with the line type fixed (pathconst), so it does not matter whether the counters
+    # are updated inside the arms of the match or later, under flags the match computed.
+    from .. import pathconst
+    KINDS = ("Add", "Remove", "Context")
+
+    def under(v, blocked=()):
+        return pathconst.reach_under(ph, lambda e: None, lambda e, adt: v if (adt or "").endswith("HunkLineType") else None, blocked=blocked,
+                                    per_iteration=True)
+    R = {v: under(v) for v in KINDS}
+    only_context = lambda bb: bb in R["Context"] and bb not in R["Add"] and bb not in R["Remove"]
     stores = {"prefix_context": [], "suffix_context": []}
     for bb, idx, s in ph.stmts():
         if s["k"] != "assign" or "p" not in s["lhs"]:
@@ -182,19 +190,36 @@ def r6(ck, rule="C01-R6"):
                 stores[f].append((bb, s, kind, df.show(e, 80)))
     pre, suf = stores["prefix_context"], stores["suffix_context"]
     ck.floor(rule, "updates of the context counters in parse_hunk", len(pre) + len(suf), 3)
-    okp = bool(pre) and all(k == "inc" and bb in arm["Context"] for bb, s, k, sh in pre)
+    okp = bool(pre) and all(k == "inc" and only_context(bb) for bb, s, k, sh in pre)
     ck.require(okp, rule, "prefix_context counts leading context lines",
-               "prefix_context is updated as %s: not one increment per line marked ' '" % [(sh, "in Context arm" if bb in arm["Context"] else "elsewhere") for bb, s, k, sh in pre],
-               ph.where(pre[0][1]) if pre else ph.where(), ok_detail="+= 1 on the Context arm only")
+               "prefix_context is updated as %s: not one increment per line marked ' '" % [(sh, "for context lines only" if only_context(bb) else "also for other lines") for bb, s, k, sh in pre],
+               ph.where(pre[0][1]) if pre else ph.where(), ok_detail="+= 1 for lines marked ' ' only")
     incs = [x for x in suf if x[2] == "inc"]
     resets = [x for x in suf if x[2] == "reset"]
-    oks = bool(incs) and all(bb in arm["Context"] for bb, s, k, sh in incs) and not [x for x in suf if x[2] == "other"] and \
-        any(bb in arm["Add"] for bb, s, k, sh in resets) and any(bb in arm["Remove"] for bb, s, k, sh in resets) and \
-        all(bb in arm["Add"] or bb in arm["Remove"] for bb, s, k, sh in resets)
+    oks = bool(incs) and all(only_context(bb) for bb, s, k, sh in incs) and not [x for x in suf if x[2] == "other"] and \
+        any(bb in R["Add"] for bb, s, k, sh in resets) and any(bb in R["Remove"] for bb, s, k, sh in resets) and \
+        not any(bb in R["Context"] for bb, s, k, sh in resets)
     ck.require(oks, rule, "suffix_context counts trailing context lines",
                "suffix_context is updated as %s: not '+= 1 per context line, back to 0 at every changed line'" % [(sh, k) for bb, s, k, sh in suf],
-               ph.where(suf[0][1]) if suf else ph.where(), ok_detail="+= 1 on the Context arm, = 0 on the Add and Remove arms")
-    # leading vs trailing: the two increments sit on opposite sides of one flag that the Add and Remove arms set
+               ph.where(suf[0][1]) if suf else ph.where(), ok_detail="+= 1 for context lines, = 0 for added and removed lines")
+    # every line is counted: an iteration for a context line cannot reach the next one without an increment, one for a changed line
+    # not without the reset
+    loops = cfg.loops(ph)
+    holder = [h for h, body in loops.items() if all(bb in body for bb, s, k, sh in pre + suf)]
+    if pre and incs and resets and ck.require(bool(holder), rule, "the counters are updated inside the line loop", "updates are not inside one loop", ph.where()):
+        head = min(holder, key=lambda h: len(loops[h]))
+        body = loops[head]
+        latches = {b for b in ph.preds()[head] if b in body}
+        inc_bbs = {bb for bb, s, k, sh in pre + incs}
+        reset_bbs = {bb for bb, s, k, sh in resets}
+        miss = []
+        if latches & under("Context", blocked=inc_bbs):
+            miss.append("a context line can pass without being counted")
+        for v in ("Add", "Remove"):
+            if latches & under(v, blocked=reset_bbs):
+                miss.append("a line marked %s can pass without resetting suffix_context" % ("'+'" if v == "Add" else "'-'"))
+        ck.require(not miss, rule, "every line updates the counters", "; ".join(miss), ph.where(), ok_detail="no iteration skips its update")
+    # leading vs trailing: the two increments sit on opposite sides of one flag that changed lines set
     if pre and incs:
         good = False
         for g in guards.find_bool_guards(ph, lambda e: isinstance(e, tuple) and e[0] == "local"):
@@ -204,11 +229,12 @@ def r6(ck, rule="C01-R6"):
                 sets = [dd for dd in df.defs_of(ph).all(flag) if dd[0] == "stmt"]
                 t_in = [dd for dd in sets if df.rvalue_expr(ph, dd[3]["rv"]) == ("const", 1, "bool")]
                 f_in = [dd for dd in sets if df.rvalue_expr(ph, dd[3]["rv"]) == ("const", 0, "bool")]
-                if any(dd[1] in arm["Add"] for dd in t_in) and any(dd[1] in arm["Remove"] for dd in t_in) and \
+                if any(dd[1] in R["Add"] for dd in t_in) and any(dd[1] in R["Remove"] for dd in t_in) and \
+                        not any(dd[1] in R["Context"] and cfg.innermost_loop_of(ph, dd[1]) is not None for dd in t_in) and \
                         all(cfg.innermost_loop_of(ph, dd[1]) is None for dd in f_in) and len(t_in) + len(f_in) == len(sets):
                     good = True
         ck.require(good, rule, "context lines before the first changed line count as prefix, later ones as suffix",
-                   "the two counters are not separated by a flag that the Add and Remove arms set", ph.where(pre[0][1]))
+                   "the two counters are not separated by a flag that added and removed lines (and only they) set", ph.where(pre[0][1]))
 
 
 def run(ck):
